@@ -816,7 +816,7 @@ func (g *c05Gen) poolBook(tr *Trace) ([]*c05Order, sdkmath.LegacyDec) {
 			pool = rp
 			tr.Count("pool:ranged")
 			// the orders this ranged pool contributes to the book are checked against the model too
-			if r.Chance(scale(25, 100)) {
+			if r.Chance(scale(25, 30)) {
 				prx, pry := rp.Balances()
 				c05RangedPoolLine(tr, prx, pry, minP, maxP, lowest, highest, g.prec)
 			}
@@ -951,11 +951,11 @@ func TestC05(t *testing.T) {
 
 	c05TickLines(tr, rng, scale(3000, 60000))
 	c05PoolCapLines(tr)
-	c05PoolLines(tr, rng, scale(1200, 30000))
-	c05RangedLines(tr, rng, scale(300, 20000))
+	c05PoolLines(tr, rng, scale(1200, 10000))
+	c05RangedLines(tr, rng, scale(300, 5000))
 
 	g := &c05Gen{rng: rng}
-	books := scale(36000, 600000)
+	books := scale(36000, 400000)
 	for b := 0; b < books; b++ {
 		var os []*c05Order
 		if rng.Chance(6) {
